@@ -37,6 +37,17 @@ func hasNonFinite(c PCase) bool {
 }
 func scalarArg(c PCase, i int) (float64, bool) {
 	if i < len(c.Args) {
+		if owner, e, ok := c.elemRef(i); ok {
+			// a reference to an element: its value when the call starts (an absent sparse entry is created as 0)
+			o := c.ownerSpec(owner)
+			if e < len(o.E) {
+				if !o.E[e].P {
+					return 0, true
+				}
+				return float64(o.E[e].V), true
+			}
+			return 0, false
+		}
 		a := c.Args[i]
 		if c.Alias[i] == 0 {
 			a = c.Recv
@@ -117,14 +128,12 @@ func classify(c PCase, g, k Result, class int) string {
 		if !g.Panic && !k.Panic && toksString(k.Ret) == "false" && supportsDiffer(c) {
 			return "F-C09-EQUALS-SPARSE"
 		}
-	case site == "svec.VdivS/VDIVS":
-		if x, ok := scalarArg(c, 1); ok && (x == 0 || math.IsNaN(x)) {
-			return "F-C09-VDIVS-ZERO"
-		}
+	// svec.VdivS/VDIVS: VDIVS is { r.VdivS(a, b); return r } since 5abb77d — F-C09-VDIVS-ZERO, F-C09-VDIVS-SELFREF and the
+	// VdivS instances of F-C09-ABSENT-SIGNZERO / -NONFINITE / -META are gone: any difference there is a violation
 	case ec == "int" && in(site, "dvec.MdotV/MDOTV", "dvec.VdotM/VDOTM"):
 		return "F-C09-MDOTV-INT"
 	}
-	if c.Kind == "svec" && in(c.G, "VaddV", "VsubV", "VmulV", "VmulS", "VdivS", "Set") {
+	if c.Kind == "svec" && in(c.G, "VaddV", "VsubV", "VmulV", "VmulS", "Set") {
 		if ec == "real" {
 			// F-C09-ABSENT-SETORD (SET of a lower-order receiver element panicked) is gone with d9fca78
 			if !k.Panic && !g.Panic {
@@ -136,10 +145,10 @@ func classify(c PCase, g, k Result, class int) string {
 				}
 			}
 		}
-		if class == 1 && in(c.G, "VsubV", "VmulV", "VmulS", "VdivS") {
+		if class == 1 && in(c.G, "VsubV", "VmulV", "VmulS") {
 			return "F-C09-ABSENT-SIGNZERO"
 		}
-		if class == 2 && in(c.G, "VmulV", "VmulS", "VdivS") && hasNonFinite(c) && !g.Panic && !k.Panic {
+		if class == 2 && in(c.G, "VmulV", "VmulS") && hasNonFinite(c) && !g.Panic && !k.Panic {
 			return "F-C09-ABSENT-NONFINITE"
 		}
 	}
